@@ -12,8 +12,8 @@ CHECKS = {
          "Every fully parenthesised expression tree up to 4 (thorough 5) leaves over a literal ladder (integers, decimals, exponent forms, huge/tiny magnitudes and each percent literal next to its plain twin) and all five operators is evaluated by the real parser+evaluator and compared with an independent exact evaluator run on the generating tree; every operator sequence of length 1..4 (thorough 5) is also written without parentheses and compared with the tree the documented precedence table prescribes; exhaustive within the stated bound.",
          "num::BigRational is exact; sizes between the ladder rungs behave like the rungs; blank layout is C06's subject.", "3 C01"),
  "C02": ("exploration", E1 + ": all ordered pairs of a unit-spelling set x {+,-,to} vs dimension vectors of an independent unit table",
-         "Every ordered pair of ~450 (thorough ~1050) unit spellings (all units, prefixed, products/quotients, powered and prefixed-and-powered, spellings that cancel over the same or over different unit names, spellings that contribute/cancel/re-contribute a base) under + - and to, with non-zero and with zero-valued (written and computed) operands, plus plain-number adoption in both operand orders: Ok iff the independent table gives equal base dimensions, with exact SI value and the cast result expressed in the target unit.",
-         "Independent unit table (tables.rs); syntactically cancelling spellings (m/m) and prefixed words the tool rejects are not judged.", "3 C02"),
+         "Every ordered pair of ~450 (thorough ~1050) unit spellings (all units, prefixed, products/quotients, powered and prefixed-and-powered, spellings that cancel over the same or over different unit names, spellings that contribute/cancel/re-contribute a base) under + - and to, with non-zero and with zero-valued (written and computed) operands, spellings with one unit on both sides of the slash under different powers (m/m^2), computed operands (every a*b/c and a/b*c over ten quantities cast to, added to and subtracted from twelve targets, judged against the reference evaluation of the tree), plus plain-number adoption in both operand orders: Ok iff the independent table gives equal base dimensions, with exact SI value and the cast result expressed in the target unit.",
+         "Independent unit table (tables.rs); syntactically cancelling spellings (m/m), computed dimensionless operands and prefixed words the tool rejects are not judged.", "3 C02"),
  "C03": ("exploration", E1 + ": commensurable unit pairs, prefixes, powers, composites vs SI scales, plus table-free conversion laws on the real code",
          "All ordered pairs per commensurability class x magnitudes, every prefix spelling, powers -3..3, every prefix symbol crossed with every power -3..3 (as source, as target and prefix-to-prefix; thorough: on every non-offset unit of the table, powers to +-5, 12 magnitudes per pair), 2-4 factor composites and composites naming the same units on both sides with differently distributed powers against the table; round-trip, via-unit, unparenthesised cast chains and scaling laws evaluated on the real code only (no table).",
          "Independent unit table for the direct oracle; the laws need none. Words misread by the unit lexer are left to C05.", "3 C03"),
@@ -21,7 +21,7 @@ CHECKS = {
          "All pairs of 55 quantity spellings (incl. one unit under several prefixes and powers, derived-per-base compounds) under * and / (either side parenthesised), all triples over a core (thorough: over the whole list, plus all quadruples in three groupings over a 10-quantity core), (q)^n for n=-3..3 (thorough -6..6) for every documented unit, one unit under two prefixes and two powers on either side of * and /, zero-valued quantities (written and computed) under ^n, * and /; SI value and base dimensions must equal the reference evaluation of the tree. A temperature on an offset scale (4 spellings x 3 readings) as a factor or divisor of 8 other quantities in both operand orders must be the product of the operands' SI values under the interval or the absolute reading of the degree.",
          "Independent unit table; display unit never compared; whether a degree inside a product is an interval or a refused use is left open (C09), only a value that is neither is reported.", "3 C04"),
  "C05": ("exploration", E1 + ": the whole unit vocabulary (names x prefixes, 2- and 3-name concatenations, unit expressions) vs independent segmentation",
-         "Every name x every prefix spelling, every 2-name concatenation, short 3-name concatenations and all unit expressions of <=3 (4) items through both entry points; an accepted word must mean one of its valid segmentations over the independent table, bare documented names their own (standard) meaning; every documented unit under the powers 1,-1,2,-2,3 is converted to its dimensions spelled in base units (exact scale^p), which exercises the tool's own per-unit expansion.",
+         "Every name x every prefix spelling, every 2-name concatenation, short 3-name concatenations and all unit expressions of <=3 (4) items through both entry points; every acceptance of a word (by the query path, by str::parse::<Compound>) must mean one of its valid segmentations over the independent table (scale in the prefixes or in the number), bare documented names their own (standard) meaning; every documented unit under the powers 1,-1,2,-2,3 is converted to its dimensions spelled in base units (exact scale^p), which exercises the tool's own per-unit expansion.",
          "Independent table; nine recorded findings (logos lexer drops characters; three test-pinned definitions) are listed in known_findings.txt.", "3 C05"),
  "C06": ("exploration", E1 + ": operator sequences x bracketings x blank layouts vs the documented precedence table",
          "All operator sequences up to length 5 over + - * / ^ with every bracketing (Catalan), minimal and full parentheses, redundant parentheses, function-argument position (incl. a call as the digits argument), `to` chains whose root cast must be expressed in the target unit, every sequence of up to 3 operators over operands that carry a unit (a number with its unit is one value), and blank layouts (all combinations of homogeneous gaps for <=2 operators, uniform + 1/2-slot deviations beyond, deviations including gaps that mix spaces and tabs) are evaluated and compared with the reference evaluation of the tree the documented grammar prescribes.",
@@ -61,9 +61,9 @@ CHECKS = {
          "serde_cbor/serde_json are faithful carriers.", "3 C17"),
  "C19": ("exploration", E1 + ": query family x {default,--exact} through the real binary vs text rebuilt from library results",
          "Value shapes x unit shapes x error/multi-result/fact compositions, every documented unit alone / squared / as denominator / in products and quotients / prefixed, 2- and 3-digit exponents, negative tiny/huge values, every ordered pair and triple (thorough: quadruple) of six result kinds in one query, thorough also every ordered pair of 62 quantities as a product and a quotient, every documented unit under every prefix symbol and every shipped fact by its own words, both modes, run through the `any` binary built from /repo and compared line by line with the stated printing rule applied to the library's results; every printed unit is additionally re-read with the harness's own vocabulary table and must denote the computed unit (SI scale and dimensions), with a blank when it has a numerator part and none in front of a leading slash, no plural form when the value is one and none after the slash; in decimal mode the printed number is re-read and judged against the value with C08's oracle.",
-         "Decimal rendering is taken from the library (C08 judges it); no exit code is required; two display-only names (`fl oz`, `g` for gforce) are aliased in the re-reader.", "3 C19"),
+         "Decimal rendering is taken from the library (C08 judges it); no exit code and no diagnostic header format is required (a diagnostic is a margin line carrying the library's message, on stdout in order or on stderr); two display-only names (`fl oz`, `g` for gforce) are aliased in the re-reader.", "3 C19"),
  "C18": ("model_checking", "explicit-state search over operation histories executed on the real Db (state = history, canonicalised by probe-set answers) plus exhaustive expression enumeration",
-         "All histories of length <=3 (4) over 22 operations (11 queries incl. two phrases the search backend itself rejects, a word shared by several constants, a full word set containing it, and a three-result query failing in the middle; describe on/off) on one shared Db: every step must answer as on a fresh Db and leave the probe-set answers unchanged; all histories <=3 over 20 lookup-free unit/number/function queries against hand-written exact expectations; histories over up to 16 nearly colliding full word sets against the independently decoded constants; 440 multi-result queries (incl. casts) whose computed results must all be described whatever fails around them; every distinct single word of the data set (described constant = value returned); the real binary with/without --describe over 8 phrases (sourced and sourceless constants): every ordered pair and triple of results and every product must print each phrase's own single-phrase description lines in order; all expressions with <=3 operands over literals and fact phrases with describe on/off.",
+         "All histories of length <=3 (4) over 22 operations (11 queries incl. two phrases the search backend itself rejects, a word shared by several constants, a full word set containing it, and a three-result query failing in the middle; describe on/off) on one shared Db: every step must answer as on a fresh Db and leave the probe-set answers unchanged; all histories <=3 over 20 lookup-free unit/number/function queries against hand-written exact expectations; histories over up to 16 nearly colliding full word sets against the independently decoded constants; 440 multi-result queries (incl. casts) whose computed results must all be described whatever fails around them; every distinct single word of the data set (described constant = value returned); the real binary with/without --describe over 8 phrases (sourced and sourceless constants): every ordered pair and triple of results and every product must print each phrase's own single-phrase description lines in order; all expressions with <=3 operands over literals and fact phrases with describe on/off, where the description order must agree with the evaluation order of every pair of operands as observed directly (both made to fail: whose error is reported).",
          "The model is the implementation itself (no abstraction): every explored trace is an implementation trace.", "3 C18"),
 }
 
